@@ -359,7 +359,18 @@ func (fr *FuncRun) applyContract(f *Frame, st *State, fc *FuncContract, callee *
 		}
 	}
 	pre := st.clone()
-	ctx := &EvalCtx{fr: fr, st: st, old: pre, pkg: pkg, binds: binds}
+	// objects the callee allocates lie between the allocation mark at the call and a new, later mark
+	callBase := fr.allocTop
+	if !fc.Extern && callee != nil {
+		nt := fr.fresh(sInt, "alloctop")
+		fr.emit(fmt.Sprintf("(assert (>= %s %s))", nt, callBase))
+		fr.allocTop = nt
+	}
+	// the callee's ghost variables: their final values are whatever the callee's run produced
+	for _, g := range fc.Ghosts {
+		binds[g.Name] = TVal{Val: Val{T: fr.fresh(g.Sort, "cghost_"+g.Name), S: g.Sort}}
+	}
+	ctx := &EvalCtx{fr: fr, st: st, old: pre, pkg: pkg, binds: binds, freshBase: callBase}
 	for i, r := range fc.Requires {
 		t := fr.evalClause(ctx, r)
 		fr.assertOb(st, "pre", fmt.Sprintf("%s:%d", name, i+1), t, pos, "precondition of "+fc.Name+": "+r.Text)
@@ -439,7 +450,7 @@ func (fr *FuncRun) applyContract(f *Frame, st *State, fc *FuncContract, callee *
 		results = []Val{rv}
 	}
 	fr.resultBinds(sig, results, binds)
-	ctx = &EvalCtx{fr: fr, st: st, old: pre, pkg: pkg, binds: binds}
+	ctx = &EvalCtx{fr: fr, st: st, old: pre, pkg: pkg, binds: binds, freshBase: callBase}
 	for _, en := range fc.Ensures {
 		fr.assume(st, fr.evalClause(ctx, en))
 	}
@@ -449,6 +460,25 @@ func (fr *FuncRun) applyContract(f *Frame, st *State, fc *FuncContract, callee *
 		fr.assumed["trusted contract "+trimPath(fc.Pkg)+"."+fc.Name] = true
 	}
 	return rv
+}
+
+// constZero: the all-zero / all-false value of an SMT sort.
+func constZero(sort string) string {
+	switch sort {
+	case "Int":
+		return "0"
+	case "Bool":
+		return "false"
+	case "Real":
+		return "0.0"
+	}
+	if strings.HasPrefix(sort, "(Array ") {
+		inner := sort[len("(Array ") : len(sort)-1]
+		j := skipSexp(inner, 0)
+		vs := strings.TrimSpace(inner[j:])
+		return "((as const " + sort + ") " + constZero(vs) + ")"
+	}
+	return "0"
 }
 
 // termIsFresh: the address term is an object allocated in this run (or an inline field of one).
@@ -597,13 +627,20 @@ func (fr *FuncRun) contentHeaps(t types.Type) []string {
 	case *types.Slice:
 		return []string{w.ElemHeap(u.Elem())}
 	case *types.Pointer:
-		if st, ok := u.Elem().Underlying().(*types.Struct); ok {
+		if _, ok := u.Elem().Underlying().(*types.Struct); ok {
 			var hs []string
-			for i := 0; i < st.NumFields(); i++ {
-				if !isStruct(st.Field(i).Type()) {
-					hs = append(hs, w.FieldHeap(u.Elem(), i))
+			var walk func(t types.Type)
+			walk = func(t types.Type) {
+				st := t.Underlying().(*types.Struct)
+				for i := 0; i < st.NumFields(); i++ {
+					if isStruct(st.Field(i).Type()) {
+						walk(st.Field(i).Type())
+					} else {
+						hs = append(hs, w.FieldHeap(t, i))
+					}
 				}
 			}
+			walk(u.Elem())
 			return hs
 		}
 		return []string{w.CellHeap(u.Elem())}
@@ -768,19 +805,25 @@ func (fr *FuncRun) ghostUpdates(f *Frame, st *State, c *ssa.CallCommon, name str
 // recvGhost executes ghost updates and assertions bound to the receipt of a message on a channel
 // (`at recv ch: ghost g[..] = e` / `at recv ch: assert e`, the message is bound to msg).
 func (fr *FuncRun) recvGhost(f *Frame, st *State, chv ssa.Value, msg Val, pos token.Pos) {
+	et := chv.Type().Underlying().(*types.Chan).Elem()
+	fr.eventGhost(f, st, "recv:"+exprText(chv), map[string]TVal{"msg": {Val: msg, Type: et}}, pos)
+}
+
+// eventGhost runs the ghost updates / assertions bound to a named event (`at recv ch: ...`, `at mapstore m: ...`).
+func (fr *FuncRun) eventGhost(f *Frame, st *State, name string, extra map[string]TVal, pos token.Pos) {
 	top := fr.contractFrame(f)
 	if top == nil {
 		return
 	}
-	name := "recv:" + exprText(chv)
-	et := chv.Type().Underlying().(*types.Chan).Elem()
 	k := 0
 	for _, ac := range top.contract.AtCalls {
 		if ac.Callee != name || ac.Assume {
 			continue
 		}
-		binds := fr.paramBinds(top.fn, top.params)
-		binds["msg"] = TVal{Val: msg, Type: et}
+		binds := fr.currentParamBinds(top, st)
+		for n, v := range extra {
+			binds[n] = v
+		}
 		ctx := &EvalCtx{fr: fr, f: top, st: st, old: top.entry, pkg: fr.eng.pkgOf(top.fn), binds: binds}
 		if ac.Ghost == nil {
 			k++
@@ -1014,7 +1057,21 @@ func (e *Engine) VerifyFunction(fn *ssa.Function) *FuncResult {
 		}
 	}
 	for _, g := range f.contract.Ghosts {
-		st.cells[cellKey{0, "ghost:" + g.Name}] = Val{T: fr.fresh(g.Sort, "ghost_"+g.Name), S: g.Sort}
+		gv := Val{T: fr.fresh(g.Sort, "ghost_"+g.Name), S: g.Sort}
+		switch g.Init {
+		case "":
+		case "empty":
+			fr.emit(fmt.Sprintf("(assert (= %s %s))", gv.T, constZero(g.Sort)))
+		default:
+			if ie, err := parseExpr(g.Init); err == nil {
+				ictx := &EvalCtx{fr: fr, f: f, st: st, pkg: e.pkgOf(fn), binds: fr.paramBinds(fn, f.params)}
+				iv := ictx.eval(ie)
+				fr.emit(fmt.Sprintf("(assert (= %s %s))", gv.T, iv.T))
+			} else {
+				fr.errorf("bad ghost initialiser %q", g.Init)
+			}
+		}
+		st.cells[cellKey{0, "ghost:" + g.Name}] = gv
 	}
 	f.entry = st.clone()
 	// preconditions
@@ -1084,6 +1141,7 @@ func (e *Engine) VerifyFunction(fn *ssa.Function) *FuncResult {
 	}
 	// body
 	rs, results := fr.execFunction(f, st)
+	fr.flushBackEdges()
 	// postconditions
 	binds := fr.paramBinds(fn, f.params)
 	fr.resultBinds(fn.Signature, results, binds)
